@@ -114,30 +114,23 @@ Theorem C11_session_trim_only_expired : forall oauth trim ins s k c m,
 Proof. exact sess_trim_only_expired. Qed.
 
 (* ------------------------------------------------------------------ key-internal (cryptographic key states) *)
-(* FULL STATEMENT for keys: order/grouping independence with only the immutable key data
-   (usage, valid_from, der per status) consistent. *)
-Definition C11_key_full_statement : Prop := key_full_statement.
+(* key_merge is the code as repaired by /repo ea75008 ("replicated key revocations must merge
+   to the earliest status change"): on equal status the earliest status cid wins.
+   KeyConsistent only asks the immutable key data (usage, valid_from, der per status) to be
+   consistent; nothing is assumed about status cids. *)
 
-(* It is FALSE for the code as written: `repl_merge_valueset` compares only `status` and ignores
-   `status_cid`, so two independent revocations of one key at different change ids are resolved
-   by the newer/older role, which depends on the grouping (witness in Proofs.key_witness_ins,
-   confirmed on the real code by the harness, class recognised by Model.known). *)
-Theorem C11_key_refuted : ~ C11_key_full_statement.
-Proof. exact key_refuted. Qed.
-
-(* PROVED PART (keys): everything outside the known class — no two replicas hold one key in the
-   same status with different status cids (KeyNoTie). *)
-Theorem C11_key_order_grouping_independent_partial : forall trim ins s1 s2,
-  WellFormed N.compare ins -> KeyConsistent ins -> KeyNoTie ins -> KeyWindow trim ins ->
+(* FULL STATEMENT for keys: any two merge trees over the same set of replicas give the same result. *)
+Theorem C11_key_order_grouping_independent : forall trim ins s1 s2,
+  WellFormed N.compare ins -> KeyConsistent ins -> KeyWindow trim ins ->
   wf ins s1 -> wf ins s2 -> is_node s1 -> is_node s2 -> same_leafset s1 s2 ->
   eval (key_merge trim) ins s1 = eval (key_merge trim) ins s2.
 Proof. exact key_tree_indep. Qed.
-Theorem C11_key_comm_partial : forall trim a b,
-  WellFormed N.compare [a; b] -> KeyConsistent [a; b] -> KeyNoTie [a; b] -> KeyWindow trim [a; b] ->
+Theorem C11_key_comm : forall trim a b,
+  WellFormed N.compare [a; b] -> KeyConsistent [a; b] -> KeyWindow trim [a; b] ->
   repl_merge (key_merge trim) a b = repl_merge (key_merge trim) b a.
 Proof. exact key_comm. Qed.
-Theorem C11_key_assoc_partial : forall trim a b c,
-  WellFormed N.compare [a; b; c] -> KeyConsistent [a; b; c] -> KeyNoTie [a; b; c] -> KeyWindow trim [a; b; c] ->
+Theorem C11_key_assoc : forall trim a b c,
+  WellFormed N.compare [a; b; c] -> KeyConsistent [a; b; c] -> KeyWindow trim [a; b; c] ->
   repl_merge (key_merge trim) (repl_merge (key_merge trim) a b) c
   = repl_merge (key_merge trim) a (repl_merge (key_merge trim) b c).
 Proof. exact key_assoc. Qed.
@@ -145,22 +138,28 @@ Theorem C11_key_idem : forall trim (a : cid * kmap),
   sorted N.compare (snd a) ->
   repl_merge (key_merge trim) a a = (fst a, retain (fun v => negb (kval_dead trim v)) (snd a)).
 Proof. exact key_idem. Qed.
-(* a key revoked by any replica at a status cid not older than the trim cid stays revoked *)
-Theorem C11_key_revocation_dominates_partial : forall trim ins s i ci mi k v c m,
-  WellFormed N.compare ins -> KeyConsistent ins -> KeyNoTie ins -> KeyWindow trim ins ->
+(* REVOCATION IS NEVER LOST: a key revoked by any replica below the tree at a status cid not
+   older than the trim cid is revoked in the result, at a status cid that is some replica's
+   revocation of that key and the EARLIEST of all replicas' revocations of it. *)
+Theorem C11_key_revocation_dominates : forall trim ins s i ci mi k v c m,
+  WellFormed N.compare ins -> KeyConsistent ins -> KeyWindow trim ins ->
   wf ins s -> is_node s -> eval (key_merge trim) ins s = Some (c, m) ->
   In i (leaves s) -> nth_error ins (N.to_nat i) = Some (ci, mi) -> In (k, v) mi ->
   k_status v = KRevoked -> cid_ltb (k_cid v) trim = false ->
-  In (k, v) m.
+  exists v', In (k, v') m /\ k_status v' = KRevoked /\ cle (k_cid v') (k_cid v) /\
+    (exists j cj mj, In j (leaves s) /\ nth_error ins (N.to_nat j) = Some (cj, mj) /\ In (k, v') mj) /\
+    (forall j cj mj w, In j (leaves s) -> nth_error ins (N.to_nat j) = Some (cj, mj) -> In (k, w) mj ->
+       k_status w = KRevoked -> cle (k_cid v') (k_cid w)).
 Proof. exact key_revocation_dominates. Qed.
 
-(* THE PROPOSED FIX (tie-break equal status by the earliest status cid, fixes/C11.patch)
-   satisfies the FULL statement. *)
-Theorem C11_key_fixed_order_grouping_independent : forall trim ins s1 s2,
-  WellFormed N.compare ins -> KeyConsistent ins -> KeyWindow trim ins ->
-  wf ins s1 -> wf ins s2 -> is_node s1 -> is_node s2 -> same_leafset s1 s2 ->
-  eval (key_merge_fixed trim) ins s1 = eval (key_merge_fixed trim) ins s2.
-Proof. exact key_fixed_tree_indep. Qed.
+(* PRE-FIX BEHAVIOUR (documentation of the defect repaired by ea75008, NOT the current code):
+   key_merge_prefix compared only `status` and ignored `status_cid`; the same statement was
+   FALSE for it — two independent revocations of one key at different change ids were resolved
+   by the newer/older role, which depends on the grouping (witness Proofs.key_witness_ins,
+   reproduced on the pre-fix code by the harness; evaluated in Witness.C11_witness_key_prefix). *)
+Definition C11_key_prefix_full_statement : Prop := key_prefix_full_statement.
+Theorem C11_key_prefix_refuted : ~ C11_key_prefix_full_statement.
+Proof. exact key_prefix_refuted. Qed.
 
 (* ------------------------------------------------------------------ audit log *)
 (* FULL STATEMENT for audit log strings: no bound on the number of entries. *)
@@ -195,7 +194,7 @@ Theorem C11_agree_transfers_session : forall oauth trim ins outs,
 Proof. exact agree_transfers_sess. Qed.
 Theorem C11_agree_transfers_key : forall trim ins outs,
   agree (CKey trim ins outs) = true ->
-  WellFormed N.compare ins -> KeyConsistent ins -> KeyNoTie ins -> KeyWindow trim ins ->
+  WellFormed N.compare ins -> KeyConsistent ins -> KeyWindow trim ins ->
   forall s1 o1 s2 o2, In (s1, o1) outs -> In (s2, o2) outs ->
     wf ins s1 -> wf ins s2 -> is_node s1 -> is_node s2 -> same_leafset s1 s2 -> o1 = o2.
 Proof. exact agree_transfers_key. Qed.
